@@ -5,4 +5,4 @@ From Flocq Require Import IEEE754.Binary IEEE754.Bits.
 Require Import ZV.Model.Num ZV.Model.NumSpec ZV.Model.NumBits.
 Extraction "model.ml" Z.add Z.mul Z.opp Z.div_eucl Z.of_nat Z.to_nat Z.compare
   compare_function spec_cmp numeric_do b64_of_bits bits_of_b64 is_nanb wf_num spec_arith mod_do spec_mod numeric_fold
-  integer_do spec_integer int_function complement spec_complement spec_fold.
+  integer_do spec_integer int_function complement spec_complement spec_fold numeric_builtin.
